@@ -60,6 +60,9 @@ struct Sched {
 };
 inline Sched &S() { static Sched s; return s; }
 inline thread_local int tid = -1;
+} // namespace dsched
+#include "vclock.hpp"
+namespace dsched {
 
 // must be called with bm held, inside an Ignore region
 inline void pick_next_locked(int me) {
@@ -166,10 +169,11 @@ inline void spin_yield() {
 struct sched_mutex {
 	std::mutex real;
 	int owner = -1;
+	vclock::Rel hb;        // unlock releases, lock acquires (vclock.hpp)
 	sched_mutex() = default;
 	sched_mutex(const sched_mutex &) = delete;
 	void lock() {
-		if(tid < 0 || !S().active) { real.lock(); owner = -3; return; }
+		if(tid < 0 || !S().active) { real.lock(); owner = -3; hb.on_load(std::memory_order_acquire); return; }
 		point();
 		{
 			auto &s = S();
@@ -183,12 +187,14 @@ struct sched_mutex {
 			owner = tid;
 		}
 		real.lock();
+		hb.on_load(std::memory_order_acquire);
 		held_count()++;
 	}
 	void unlock() {
-		if(tid < 0 || !S().active) { owner = -1; real.unlock(); return; }
+		if(tid < 0 || !S().active) { owner = -1; hb.on_store(std::memory_order_release); real.unlock(); return; }
 		if(S().abort) return;
 		held_count()--;
+		hb.on_store(std::memory_order_release);
 		real.unlock();
 		{
 			auto &s = S();
@@ -214,6 +220,7 @@ inline Result run(std::vector<std::function<void()>> bodies, std::function<uint3
 		s.st.assign(s.nthreads, St::runnable); s.blocked_on.assign(s.nthreads, nullptr); s.spin_epoch.assign(s.nthreads, 0); s.after_spin.assign(s.nthreads, false); s.op_pending.assign(s.nthreads, false);
 		s.progress = s.steps = s.switches = 0; s.abort = false; s.verdict.clear(); s.choose = choose; s.trace_sizes.clear(); s.fair_tail = false; s.rr = 0; s.run_length = 0; s.max_steps = max_steps;
 		s.current = -1; s.active = true;
+		vclock::fork_all(s.nthreads);
 	}
 	std::vector<std::thread> th;
 	for(int k = 0; k < (int)bodies.size(); k++) {
@@ -238,6 +245,7 @@ inline Result run(std::vector<std::function<void()>> bodies, std::function<uint3
 		if(s.abort) s.cv.notify_all();
 	}
 	for(auto &t : th) t.join();
+	vclock::join_all(s.nthreads);
 	Result r{s.verdict, s.steps, s.switches, s.abort};
 	{ Ignore ig; std::unique_lock<std::mutex> lk(s.bm); s.active = false; }
 	return r;
